@@ -186,6 +186,29 @@ Section Proofs.
     rewrite Z. destruct ((fb <=? bits) || negb (acc mod 2 ^ bits =? 0)); reflexivity.
   Qed.
 
+  (* the loop without final checks (used by the Base32 model): the complete groups *)
+  Theorem convert_floor_spec data : digits_ok A data ->
+    exists l bits pend, bits < tb /\ pend < 2 ^ bits /\ digits_ok B l /\
+      tb * N.of_nat (length l) + bits = fb * N.of_nat (length data) /\
+      from_be B l * 2 ^ bits + pend = from_be A data /\
+      convert_floor fb tb data = Ok (Some l).
+  Proof.
+    intros Hd.
+    destruct (loop_spec data 0 0 [] Hd tb_pos ltac:(constructor)) as (acc & bits & rret & E & Hb & HW & Hr & Hl).
+    rewrite W_init, N.mul_0_l, N.add_0_l in HW. unfold W in HW. cbn [length] in Hl.
+    exists (rev rret), bits, (acc mod 2 ^ bits).
+    split; [exact Hb|]. split; [apply N.mod_lt, N.pow_nonzero; discriminate|].
+    split; [apply digits_ok_rev; exact Hr|]. rewrite rev_length. split; [lia|].
+    unfold from_be in *. rewrite rev_involutive. split; [exact HW|].
+    unfold ConvertBits.convert_floor. rewrite E. reflexivity.
+  Qed.
+
+  Theorem convert_floor_range data : Exists (fun v => A <= v) data -> convert_floor fb tb data = Ok None.
+  Proof.
+    intros H. unfold ConvertBits.convert_floor.
+    rewrite (loop_range data 0 0 [] tb_pos ltac:(constructor) H). reflexivity.
+  Qed.
+
   Theorem convert_range data pad : Exists (fun v => A <= v) data -> convert_bits data pad = Ok None.
   Proof.
     intros H. unfold ConvertBits.convert_bits.
